@@ -86,7 +86,7 @@ def gen_plan(rng, index, tier):
         steps.append(s)
     if rng.random() < 0.08:
         # last step: the fuel is asked to grow by more than the dummy block can give
-        steps.append({"op": "overgrow", "asm": rng.randrange(100), "factor": rng.choice([2.5, 4.0, 9.0])})
+        steps.append({"op": "overgrow", "asm": rng.randrange(100), "factor": rng.choice([2.5, 4.0, 9.0, "exact", "exact"])})
     return {"config": cfg, "steps": steps}
 
 
@@ -391,7 +391,14 @@ class Runner:
             return True
         if op == "overgrow":
             comps = [c for bi, c in led.solids if bi < led.nblocks - 1]
-            ch.performPrescribedAxialExpansion(a, comps, [st["factor"]] * len(comps), setFuel=True)
+            fac = st["factor"]
+            if fac == "exact":
+                # growth that uses up the dummy block exactly: nothing is left of it, which is not a
+                # block of positive height (rounding may leave a hair: then the step is an ordinary one)
+                hs = [float(b.getHeight()) for b in a]
+                fac = 1.0 + hs[-1] / sum(hs[:-1])
+                self.probe("growth_that_uses_up_the_dummy_block_exactly")
+            ch.performPrescribedAxialExpansion(a, comps, [fac] * len(comps), setFuel=True)
             self.check(k, st, a, before)  # (accepted: then it must be a valid assembly)
             self.probe("overgrow_accepted")
             return True
@@ -507,7 +514,7 @@ def execute(plan):
             try:
                 did = run.apply(k, st)
             except ArithmeticError as e:
-                if "negative height" not in str(e):
+                if "negative height" not in str(e) and "non-positive height" not in str(e):
                     raise
                 # armi refuses, loudly, a change that would squeeze a block to nothing; the
                 # assembly is left half-changed, so the history ends here
